@@ -47,6 +47,11 @@ P = {
         note="Solver is an oracle (faults injected by wrapping QuantileRegressionSolver.fit); equality of tables at 1e-6 relative.",
         tech="Coq: computation on translator-generated call shapes + control-flow theorems; exhaustive fault enumeration against get_estimates",
         ref="DESIGN.md section 5 C20"),
+    "C18": dict(
+        text="Decision-function model writes(cfg) with theorems for every configuration (nothing requested -> nothing written; remote results iff requested and not local, one Put per table; live results before the gate even when it fails; conformalization iff requested+gaussian; data/config local only). Generated facts (every S3 key f-string template, the guard around every write call, position relative to the gate, the save flags) re-derived each run and decided by computation. Correspondence: the full finite space of 192 configurations against a fake boto3 client, every run.",
+        note="boto3 replaced by a recording fake; transport outside the model.",
+        tech="Coq: theorems on the decision function + computation on translator-generated templates/guards; exhaustive configuration enumeration",
+        ref="DESIGN.md section 5 C18"),
 }
 
 REASON_NOT_BUILT = "check not built yet in this development stage (planned: see DESIGN.md section 5)"
